@@ -80,6 +80,13 @@ def k_align(run, case):
     if not with_scale and exact:
         y = (R0 @ x) + t0[:, None]  # generating transform is rigid
         s0 = 1.0
+    # memory layout as callers produce it: C-contiguous, Fortran order, or the transposed view of an
+    # n x 3 array (what PosePath3D.align passes)
+    lay = rng.integers(3)
+    if lay == 1:
+        x, y = np.asfortranarray(x), np.asfortranarray(y)
+    elif lay == 2:
+        x, y = np.ascontiguousarray(x.T).T, np.ascontiguousarray(y.T).T
     out = contracts.outcome_of(G.umeyama_alignment, x, y, with_scale)
     info = contracts.umeyama_oracle(run, case, x, y, with_scale, out, cloud_rng=run.rng(case, 7))
     run.seen(case, core.digest(x, y, with_scale), nontrivial=info is not None,
